@@ -11,7 +11,12 @@ S: random histories (the same generator as C02, plus operator graphs): before an
 import numpy as np
 
 from .. import common, histgen
-from ..parallel import validate_chunks
+from ..parallel import validate_chunks, pmap
+
+
+def _hist(arg):
+    seed, quick = arg
+    return histgen.run_history(common.import_repo(), seed, quick)[1]
 
 
 def run(ctx):
@@ -27,11 +32,9 @@ def run(ctx):
               expect_violation='NoSharing')
     public = sorted(n for n in dir(ptn) if not n.startswith('_'))
     ctx.notes['public_names'] = len(public)
-    seeds = [ctx.replay['replay']['seed']] if ctx.replay is not None else [int(x) for x in rng.integers(1 << 30, size=ctx.pick(260, 6000))]
-    traces = []
-    for s in seeds:
-        _, t19 = histgen.run_history(ptn, s, ctx.quick)
-        traces.append(t19)
+    seeds = [ctx.replay['replay']['seed']] if ctx.replay is not None else [int(x) for x in rng.integers(1 << 30, size=ctx.pick(700, 6000))]
+    traces = pmap(_hist, [(s, ctx.quick) for s in seeds])
+    for s, t19 in zip(seeds, traces):
         ctx.count(s, nontrivial=any(r.get('kind') == 'fresh' and r.get('operands') for r in t19))
     ctx.notes['calls'] = sum(1 for t in traces for r in t if r.get('ev') == 'call')
     ctx.notes['pokes'] = sum(1 for t in traces for r in t if r.get('ev') == 'poke')
